@@ -180,7 +180,9 @@ def energy(run):
   ed = {n: {"class_name": c, "energy": {k: SymReal(v) for k, v in vals[n].items()}} for n, c in zip(names, classes)}
   ed["total_cost"] = 0
   settings = [{"default": ["inputs", "parameters", "op_cost"], "QActivation": ["outputs"], "Add": ["op_cost"]},
-              {"default": ["op_cost"]}, {"QConv2D": ["inputs", "outputs"], "default": []}]
+              {"default": ["op_cost"]}, {"QConv2D": ["inputs", "outputs"], "default": []},
+              # a class listed with an empty selection counts nothing for that class (it must not fall back to the default)
+              {"QActivation": [], "default": ["inputs", "parameters", "op_cost"]}]
   self_stub = QT.__new__(QT)
   for si, cfg in enumerate(settings):
     def fn(cfg=cfg):
@@ -395,7 +397,7 @@ def run(tier, seed):
     r.inconclusive_("harness error in the end-to-end part: %r" % (e,))
   r.functions = ["QTools.__init__ / QTools.pe / qenergy.energy_estimate on real models (auxiliary, concrete)", "qtools_util.get_operation_count", "QTools.extract_energy_sum", "QTools.extract_energy_profile", "qenergy.memory_read_energy", "qenergy.memory_write_energy"]
   r.bounds = ["counts: spatial 4..12, kernel 1..5, stride 1..3, dilation 1..2, channels 1..8, same/valid - all symbolic; groups and depth multipliers > 1 not covered",
-              "energy: extract_energy_sum/profile on a symbolic 3-layer energy dictionary for three cost settings; memory read/write energy for "
+              "energy: extract_energy_sum/profile on a symbolic 3-layer energy dictionary for four cost settings (one with an empty per-class selection); memory read/write energy for "
               "tensor size <= 2^20, bits <= 32, min_sram_size <= 2^20, all placements",
               "end to end (auxiliary, concrete; legacy Keras attributes stubbed): the real QTools on four real models (dense stack, conv2d/depthwise/dense, "
               "conv1d, two strided conv branches merged by Add): reported operation_count = output elements x taps of the layer Keras built; QTools.pe() "
